@@ -2,8 +2,9 @@
 
 (M) TLC exhausts specs/rowdelete/RowDelete.tla: every predicate of the bounded grammar (comparison,
     IS [NOT] NULL, [NOT] IN incl. NULL in the list, [NOT] LIKE prefix, constants TRUE / 1=1 / FALSE / 1=0 /
-    NULL = NULL, AND/OR/NOT, depth <= 2) x the request flags {dry_run, confirm}^2 x every
-    layout of the row universe over <= 3 files, Kleene evaluation, the delete automaton as the code
+    NULL = NULL, comparisons of the time column with quoted timestamp literals, AND/OR/NOT, depth <= 2) x the request flags {dry_run, confirm}^2 x every
+    layout of the row universe over <= 3 files (each in its own hour/day partition directory, all with the same
+    base name, row times inside the partition), Kleene evaluation, the delete automaton as the code
     is now (Keep = "is_not_true": affected files = files with a TRUE row, rewrite keeps
     (p) IS NOT TRUE -- fix f4599fa) and checks ImplSafe and the property PropExact.  Negative
     control: Neg_small.cfg (Keep = "not_p", the behaviour before the fix) must violate PropExact,
@@ -82,7 +83,7 @@ def run(ctx):
         if c["p"]["k"] == "const":
             always.append(c)
         else:
-            groups.setdefault((c["lay"], "".join(c["tv"]), c["has_const"]), []).append(c)
+            groups.setdefault((c["lay"], "".join(c["tv"]), c["has_const"], '"c": "t"' in json.dumps(c["p"])), []).append(c)
     per, cap = (1, 800) if ctx.quick() else (2, 9000)
     chosen = []
     for k in sorted(groups):
@@ -108,8 +109,10 @@ def run(ctx):
     if r.get("oracle_disagreements"):
         raise InfraError("DuckDB's evaluation disagrees with the specification's Kleene evaluation (oracle or SQL rendering wrong): %s"
                          % r["oracle_disagreements"][:3])
-    if r.get("errors"):
+    if r.get("errors") and not r.get("violations"):
         raise InfraError("delete handler refused/failed requests of the grammar: %s" % r["errors"][:3])
+    if r.get("errors"):
+        ctx.note("failed_delete_requests", r["errors"][:5])
     if r["cases"] != len(chosen):
         raise InfraError("driver replayed %d of %d cases" % (r["cases"], len(chosen)))
     ctx.count(evaluations=r["evaluations"], nontrivial_keys=r.get("nontrivial_keys") or [])
